@@ -108,7 +108,8 @@ def units(tier, seed):
     from checks import c03_k8
     out.extend(c03_k8.units(tier, seed))
     UNCOVERED[:] = common.uncovered_report(e1.binary_classes(), classes)
-    return out
+    from checks import foundation
+    return list(out) + foundation.units(tier, seed)
 
 
 FINDING_REPLAYS = {}
